@@ -251,4 +251,64 @@ theorem diffRaw_enc (v : Variant) (cmp : Nat → Bytes → Bytes → Bool) (h1 h
         (by have := encFs_length_ge b; simp; omega)]
   simp [diffF, encFs_append]
 
+
+/-! ### the delta-codec law on bytes -/
+/-- Full statement of the delta-codec law for source variant `v`: for all well-formed
+    serialisations `a`, `b` (unique ids, fields that may be absent are empty in a fresh
+    simulation) the encoder produces a delta, and loading `a` then the delta gives, id by id,
+    what loading `b` gives. -/
+def DeltaLaw (v : Variant) : Prop :=
+  ∀ (cmp : Nat → Bytes → Bytes → Bool), CmpExact cmp →
+  ∀ (init : State) (h1 h2 t1 t2 rest : Bytes) (a b : List Field),
+    h1.length = 64 → h2.length = 64 → WFs a → WFs b → NoHeader a → NoHeader b →
+    (ids a).Nodup → (ids b).Nodup →
+    (∀ f ∈ a, (∀ g ∈ b, g.ty ≠ f.ty) → init.val f.ty = []) →
+    ∃ delta, diffRaw v cmp (h1 ++ (encFs a ++ endBytes)) (h2 ++ (encFs b ++ (endBytes ++ t2))) = some delta ∧
+      ∀ k, (applyB (applyB init (encFs a ++ (endBytes ++ t1))) (delta ++ (endBytes ++ rest))).val k
+            = (applyB init (encFs b ++ (endBytes ++ t2))).val k
+
+theorem delta_law_bytes (v : Variant) (cmp : Nat → Bytes → Bytes → Bool) (hc : CmpExact cmp)
+    (init : State) (h1 h2 t1 t2 rest : Bytes) (a b : List Field)
+    (hh1 : h1.length = 64) (hh2 : h2.length = 64) (ha : WFs a) (hb : WFs b)
+    (hna : NoHeader a) (hnb : NoHeader b) (ua : (ids a).Nodup) (ub : (ids b).Nodup)
+    (hinit : ∀ f ∈ a, (∀ g ∈ b, g.ty ≠ f.ty) → init.val f.ty = [])
+    (hv : v.f1 = true ∨ ¬ Vanishes a b) :
+    ∃ delta, diffRaw v cmp (h1 ++ (encFs a ++ endBytes)) (h2 ++ (encFs b ++ (endBytes ++ t2))) = some delta ∧
+      ∀ k, (applyB (applyB init (encFs a ++ (endBytes ++ t1))) (delta ++ (endBytes ++ rest))).val k
+            = (applyB init (encFs b ++ (endBytes ++ t2))).val k := by
+  refine ⟨_, diffRaw_enc v cmp h1 h2 t2 a b hh1 hh2 ha hb, ?_⟩
+  intro k
+  have hD : WFs (diffF v cmp a b) := by
+    rw [diffF_eq_spec v cmp a b ub]; exact diffSpec_WF v cmp a b ha hb hv
+  have hDn : NoHeader (diffF v cmp a b) := by
+    rw [diffF_eq_spec v cmp a b ub]; exact diffSpec_NoHeader v cmp a b hna hnb
+  rw [applyB_enc a t1 init ha hna, applyB_enc b t2 init hb hnb, applyB_enc _ rest _ hD hDn]
+  exact delta_law_fields v cmp hc init a b ua ub hinit k
+
+theorem deltaLaw_fixed : DeltaLaw Variant.fixed := by
+  intro cmp hc init h1 h2 t1 t2 rest a b hh1 hh2 ha hb hna hnb ua ub hinit
+  exact delta_law_bytes _ cmp hc init h1 h2 t1 t2 rest a b hh1 hh2 ha hb hna hnb ua ub hinit (Or.inl rfl)
+
+/-- F1: the law is false of the code as it is.  Snapshot `a` holds one 4-byte array (id 104,
+    `ri_whfast.p_jh`), `b` holds none: the delta is the bare header "id 104, size 4", and the
+    reader takes the first four bytes of the END marker as its payload. -/
+theorem deltaLaw_current_false : ¬ DeltaLaw Variant.current := by
+  intro h
+  have hw : WFs [⟨104, 4, [1, 2, 3, 4]⟩] := by
+    intro f hf
+    simp only [List.mem_singleton] at hf
+    subst hf
+    exact ⟨rfl, by decide, by decide, by decide⟩
+  obtain ⟨delta, hd, hk⟩ := h (fun _ p q => p == q) (fun _ p q e => by simpa using e) []
+    (List.replicate 64 0) (List.replicate 64 0) [] [] [] [⟨104, 4, [1, 2, 3, 4]⟩] []
+    rfl rfl hw (by intro f hf; cases hf)
+    (by intro f hf; simp only [List.mem_singleton] at hf; subst hf; decide)
+    (by intro f hf; cases hf) (by decide) (by decide) (by intro f hf _; rfl)
+  rw [diffRaw_enc _ _ _ _ _ _ _ rfl rfl hw (by intro f hf; cases hf)] at hd
+  have hd' := (Option.some.inj hd).symm
+  subst hd'
+  have := hk 104
+  revert this
+  decide
+
 end RV.Bin
